@@ -52,7 +52,11 @@ PROGRAMS = {
     "block": "Block: B1\n    Mark: A\n    CmdC\n    End block\nMark: B\n",
     "restart": "Mark: A\nRestart\nMark: B\n",
     "long": "CmdC\nWait: 2s\nMark: A\n",     # CmdC executes for 6 ticks: requests can arrive inside its exec function
+    # runs on the UOD with two output registers (safe value 0, active value 5): the timed Pause applies the safe values,
+    # cancelling it restores the active ones — a request that changes what the write phase writes
+    "outputs": "Mark: A\nPause: 60s\nMark: B\n",
 }
+OUTPUT_PROGRAMS = {"outputs"}
 REQUESTS: dict[str, list] = {
     "edit": ["edit", "Mark: Z\n"],            # live edit: the method with one line appended
     "inject-mark": ["inject", "Mark: I\n"],
@@ -63,6 +67,7 @@ REQUESTS: dict[str, list] = {
     "cmdb": ["user", "CmdB"],
     "cancel": ["cancel", "Cmd"],              # the latest run-log item whose name starts with Cmd
     "force": ["force", "Wait"],
+    "cancel-pause": ["cancel", "Pause"],      # the run-log item of the method's timed Pause
 }
 ENTRY = {"edit": "set_method", "inject": "inject_code", "user": "execute_control_command_from_user",
          "cancel": "cancel_instruction", "force": "force_instruction"}
@@ -89,7 +94,9 @@ def _observe(run, results: list[str], raised: list[str]) -> dict[str, Any]:
                 instances=sorted(run.uod.command_instances.keys()),
                 method=[ln.content for ln in e.method_manager._method.lines],
                 interrupts=len(e.interpreter.interrupts), runlog=rl,
-                one_tracking=(cm.tracking is e.tracking))
+                one_tracking=(cm.tracking is e.tracking),
+                # every process image written to the hardware from the concurrent tick on (output UOD only)
+                images=[dict(im) for im in getattr(run, "verif_images", [])[getattr(run, "verif_images_from", 0):]])
 
 
 def _resolve(run, pcode: str, req: list) -> list:
@@ -130,12 +137,27 @@ def run_scenario(case: dict, serial: str | None = None) -> dict[str, Any]:
     EC.install()
     pcode = PROGRAMS[case["prog"]]
     reqs = [REQUESTS[r] for r in case["reqs"]]
-    run = EngineRun(pcode)
+    if case["prog"] in OUTPUT_PROGRAMS:
+        import harness.engine_run as ER
+        images: list = []
+        orig = ER.make_uod
+        ER.make_uod = lambda log, *a, **k: EC.make_output_uod(log, images)   # harness module attribute only
+        try:
+            run = EngineRun(pcode)
+        finally:
+            ER.make_uod = orig
+        run.verif_images = images
+    else:
+        run = EngineRun(pcode)
     try:
         coop = EC.Coop()
         EC.instrument_engine(run.engine, coop)
-        for _ in range(case["warm"]):
+        for k in range(case["warm"]):
             run.tick()
+            if k == 0 and case["prog"] in OUTPUT_PROGRAMS:      # the outputs are active while the method runs
+                run.set_tag("V1", 5)
+                run.set_tag("V2", 5)
+        run.verif_images_from = len(getattr(run, "verif_images", []))
         reqs = [_resolve(run, pcode, r) for r in reqs]
         if case.get("fail"):                    # the hardware read of the concurrent tick fails
             run.uod.hwl._verif_fail_reads = 1
@@ -263,6 +285,15 @@ def failure_of(combo: Combo, rec: dict) -> Failure | None:
                 after = next((trace[k][1] for k in range(i - 1, -1, -1) if trace[k][0] == "T"), "-")
                 break
     differs = [k for k in rec["obs"] if all(rec["obs"][k] != s[k] for s in combo.serial)]
+    # every process image written to the hardware must be one that some serial order writes in that tick — never a mix
+    serial_images = [s["images"] for s in combo.serial]
+    torn = [(n, im) for n, im in enumerate(rec["obs"]["images"])
+            if all(n >= len(si) or si[n] != im for si in serial_images)]
+    if torn:
+        return Failure(f"{kind}-torn-process-image-written", rec["case"],
+                       f"request {combo.base['reqs'][j]} ran while the tick was in its write phase: image {torn[0][1]} "
+                       f"was written to the hardware in tick {torn[0][0]} after the request arrived; serial orders write "
+                       f"{[si[torn[0][0]] if torn[0][0] < len(si) else None for si in serial_images]}")
     return Failure(f"{kind}-not-atomic-inside-tick", rec["case"],
                    f"request {combo.base['reqs'][j]} interleaved with the tick (its entry followed the tick's "
                    f"'{after}' segment; positions {rec['pos']}): the final observation equals no serial order; "
@@ -327,8 +358,12 @@ def run(ctx: Check) -> int:
     n_atomic = 0
     few = ("edit", "pause", "cancel", "inject-cmd")       # quick tier: fewer requests for three of the methods
     for prog in PROGRAMS:
+        if prog in OUTPUT_PROGRAMS:
+            continue
         for warm in warms:
             for rq in REQUESTS:
+                if rq == "cancel-pause":
+                    continue
                 if not thorough and prog in ("stop", "watch", "restart") and rq not in few:
                     continue
                 combo = combo_for(prog, warm, [rq])
@@ -337,9 +372,19 @@ def run(ctx: Check) -> int:
                 for p in range(0, n_t):
                     add(combo, "T" * p + "r")
                     n_atomic += 1
+    # (a'') a request that changes the output values (cancel of the timed Pause restores them) at every yield point of
+    # the tick, including between the two output registers while the write phase assembles the image
+    for warm in ((6, 7, 9) if thorough else (6,)):
+        for rq in ("cancel-pause", "edit", "stop"):
+            combo = combo_for("outputs", warm, [rq])
+            n_t = add(combo, "tr")["made"].count("T")
+            for p in range(0, n_t):
+                add(combo, "T" * p + "r")
+                n_atomic += 1
     # (a') the same with a tick whose hardware read fails (set_error_state runs in the tick's unlocked prologue)
     n_fail = 0
-    fail_combos = [(p, 3, r) for p in PROGRAMS for r in REQUESTS] if thorough else \
+    fail_combos = [(p, 3, r) for p in PROGRAMS if p not in OUTPUT_PROGRAMS for r in REQUESTS if r != "cancel-pause"] \
+        if thorough else \
         [(p, 3, r) for p in ("cmds", "pause") for r in ("edit", "pause", "inject-cmd", "cancel")]
     for (prog, warm, rq) in fail_combos:
         combo = combo_for(prog, warm, [rq], fail=True)
@@ -350,13 +395,14 @@ def run(ctx: Check) -> int:
     # (b) all interleavings (also at the request's own yield points) for selected combos; one and two requests
     full = [("cmds", 5, ["edit"]), ("cmds", 1, ["edit"]), ("cmds", 5, ["cmdb"]), ("pause", 5, ["pause"]),
             ("stop", 3, ["hold"]), ("block", 4, ["cancel"]), ("watch", 4, ["force"]), ("cmds", 3, ["inject-cmd"]),
-            ("long", 4, ["cancel"]), ("long", 4, ["edit"])]
+            ("long", 4, ["cancel"]), ("long", 4, ["edit"]), ("outputs", 6, ["cancel-pause"])]
     two = [("cmds", 5, ["edit", "cmdb"]), ("block", 4, ["cancel", "inject-mark"]), ("pause", 5, ["pause", "edit"])]
     extra: list = []
     if thorough:
         # all interleavings for every method x every request at warm-up 1/3/5, three methods also at 2/4/6, then more
         # two-request combos; explored in this order as far as the time guard below allows
-        extra += [(p, w, [r]) for p in PROGRAMS for w in (1, 3, 5) for r in REQUESTS]
+        extra += [(p, w, [r]) for p in PROGRAMS if p not in OUTPUT_PROGRAMS for w in (1, 3, 5) for r in REQUESTS
+                  if r != "cancel-pause"]
         extra += [(p, w, [r]) for p in ("cmds", "stop", "restart") for w in (2, 4, 6) for r in REQUESTS]
         extra += [("watch", 4, ["force", "hold"]), ("stop", 3, ["stop", "edit"]), ("restart", 3, ["inject-cmd", "cancel"]),
                   ("cmds", 2, ["cmdb", "cmdb"]), ("block", 3, ["edit", "edit"]), ("cmds", 4, ["inject-cmd", "edit"]),
@@ -386,7 +432,8 @@ def run(ctx: Check) -> int:
     # (c) random schedules for random combos
     for _ in range(ctx.n(60, 3000)):
         prog = rng.choice(list(PROGRAMS))
-        reqs = [rng.choice(list(REQUESTS)) for _ in range(rng.choice([1, 1, 2]))]
+        reqs = [rng.choice([r for r in REQUESTS if r != "cancel-pause" or prog in OUTPUT_PROGRAMS])
+                for _ in range(rng.choice([1, 1, 2]))]
         combo = combo_for(prog, rng.randrange(0, 7), reqs)
         add(combo, "".join(rng.choice("TTR") for _ in range(rng.randrange(4, 22))))
     ctx.extra["schedules"] = {"request_as_a_whole_at_every_tick_yield_point": n_atomic,
@@ -395,7 +442,7 @@ def run(ctx: Check) -> int:
                               "all_interleavings_combos_skipped_for_time": skipped, "distinct_cases": len(cases),
                               "combos": len(combos)}
     ctx.rule = ("case = (method, number of warm-up ticks, one or two requests, schedule); 7 methods (UOD commands, Stop, "
-                "timed Pause, Watch+Wait, Block, Restart, long-running UOD command) x warm-up 5 (thorough 0-6) x 9 requests (quick: 4 of them for three of the methods) (live edit, inject "
+                "timed Pause, Watch+Wait, Block, Restart, long-running UOD command, timed Pause on a UOD with two output registers) x warm-up 5 (thorough 0-6) x 9 requests (quick: 4 of them for three of the methods) (live edit, inject "
                 "mark / command, Pause, Hold, Stop, user UOD command, cancel, force) with the request as a whole placed "
                 "at each yield point of the tick (between its sub-calls, and inside them: before the hardware read, "
                 "before every UOD exec function of the command phase, before the hardware write, after every sub-tick of "
@@ -431,7 +478,8 @@ def run(ctx: Check) -> int:
     ctx.assumptions = ["thread switches only at the instrumented yield points (call boundaries); CPython may switch "
                        "threads elsewhere", "one ticking thread and one request thread; the request thread issues its "
                        "requests in order", "observation = request results, run-state flags, System State / Method Status"
-                       " / Mark / Block / Run Counter values, node states, UOD command init/exec/finalize log, command "
+                       " / Mark / Block / Run Counter values, node states, UOD command init/exec/finalize log, every process image "
+                       "written to the hardware (output UOD), command "
                        "queue and executing list, command instances, method lines, interrupts, run log; tag time stamps "
                        "are not compared", "exhaustive over the stated combos and yield points (quick tier: at most 50 schedules per all-interleavings "
                        "combo); other combos sampled"]
